@@ -10,6 +10,9 @@
     @ recsc <elem> <v|c> <op> <a> <r>
     @ recneg <elem> <v|c> <a>
     @ recpow <elem> <vv|vc|cv|cc> <a> <b>       agree
+    @ freal <elem> <fn> <a> <b>                 agree   (sqrt exp ln sin cos pow pi on f32 / f64 / Fp, every form)
+    @ trreal <elem> <fn> <an> <ad>              agree
+    @ recreal <elem> <v|c> <fn> <a>             agree
 
   <elem> ∈ i64 (overflow-checked), wrapping_u8, Fp (exact), f64 (forms compared with each other
   only: the model answers `agree`).  <op> ∈ add sub mul div.
@@ -91,13 +94,15 @@ def answerAt {α : Type} (E : Elem α) (cmd : String) (args : List String) : Str
 def answer (cmd : String) (toks : List String) : String :=
   match toks with
   | elem :: args =>
-    if cmd == "trpow" || cmd == "recpow" then
-      (if elem == "f64" || elem == "Fp" then "agree" else "bad-op")
+    if ["trpow", "recpow", "freal", "trreal", "recreal"].contains cmd then
+      -- Real functions: forms compared with each other only (their formulas are C04 / C05 / C17)
+      (if elem == "f64" || elem == "f32" || elem == "Fp" then "agree" else "bad-op")
     else match elem with
     | "i64" => answerAt elemI64 cmd args
     | "wrapping_u8" => answerAt elemWrappingU8 cmd args
     | "Fp" => answerAt elemFp cmd args
     | "f64" => "agree"
+    | "f32" => "agree"
     | _ => "bad-op"
   | [] => "bad-op"
 
